@@ -576,7 +576,7 @@ def main():
     for sa, sb, tag, what in CORPUS:
         add_pair(sa, sb, tag, what, (0, 2))
         add_pair(sb, sa, tag, what, (2, 1))
-    nfam = 8 if not thorough else 40
+    nfam = 20 if not thorough else 80
     bases = []
     for kind in KINDS:
         for _ in range(nfam if kind not in ('poly', 'mpoly') else nfam * 2):
@@ -630,8 +630,6 @@ def main():
     # copy / pickle
     ncopy = 0
     for base in bases:
-        if not thorough and rng.random() < .4:
-            continue
         props = rng.choice(PROPS)
         sty = rng.randrange(3)
         cs, fails = copy_checks(base, sty, props)
